@@ -213,21 +213,30 @@ pub fn test_case(case: &TrainCase) -> TestResult {
     // ---- behaviour on evaluation sentences
     let mut p = Predictor::new(model, true).map_err(|e| format!("Predictor::new(model, true): {e}"))?;
     p.store_tag_scores(true);
-    let mut evals: Vec<(Vec<char>, Option<Vec<u8>>)> = case
-        .corpus
-        .iter()
-        .map(|r| (r.chars.clone(), Some(r.labels.clone())))
-        .collect();
+    // corpus sentences are evaluated twice: as raw text, and as the annotated sentence itself
+    // (gold tags still on it, as `evaluate --no-norm --predict-tags` does) - fill_tags must
+    // replace every earlier tag
+    let mut evals: Vec<(Vec<char>, Option<Vec<u8>>, Option<&vcommon::oracle::RefSentence>)> = vec![];
+    for r in &case.corpus {
+        evals.push((r.chars.clone(), Some(r.labels.clone()), None));
+        evals.push((r.chars.clone(), Some(r.labels.clone()), Some(r)));
+        // ... and with all boundaries set (single-character tokens, mostly unseen), so that
+        // tokens without a tag model end on characters that carried gold tags
+        evals.push((r.chars.clone(), Some(vec![1; r.labels.len()]), Some(r)));
+    }
     for t in &case.eval {
-        evals.push((t.chars().collect(), None));
+        evals.push((t.chars().collect(), None, None));
     }
     let mut ambiguous_scored = false;
     let mut nonzero_tag_weight = false;
     let mut unseen_token = false;
     let mut dict_only_token = false;
-    for (chars, labels) in &evals {
+    for (chars, labels, annotated) in &evals {
         let text: String = chars.iter().collect();
-        let mut s = Sentence::from_raw(text.clone()).map_err(|e| e.to_string())?;
+        let mut s = match annotated {
+            Some(r) => r.to_sentence()?,
+            None => Sentence::from_raw(text.clone()).map_err(|e| e.to_string())?,
+        };
         p.predict(&mut s);
         if let Some(ls) = labels {
             for (b, &l) in s.boundaries_mut().iter_mut().zip(ls) {
